@@ -565,6 +565,11 @@ def _create_slacks_mask_form(prog, rep, cs, ff) -> None:
             f"__item__({lb}.shape, 0)", f"__item__({ub}.shape, 0)", f"len({lb})", f"len({ub})", f"{lb}.size", f"{ub}.size")
         ok = n_ok and U(inner.elt) == i_ and cm in (f"not({EQ})", NE)
     if not ok:
+        approx = [k for k in ast.walk(v) if np_call(k, "isclose", "allclose")]
+        if approx:
+            rep.fail("slack-rows", cs.qualname, short(sp_[0].stmt), f"VIOLATED: rows are classified as equations by an approximate comparison `{U(approx[0])[:60]}`; a narrow range "
+                     f"l < u would lose its slack and be solved as c(x) = l (the reformulation is exact only for cons_lb[i] == cons_ub[i])", cs.loc(sp_[0].stmt))
+            return
         raise AnalysisError(f"create_slacks (mask form): slack positions `{U(v)[:80]}` not recognised")
     rep.ok("slack-rows", cs.short, "row i gets a slack iff cons_lb[i] != cons_ub[i] (mask form: flatnonzero(not (lb == ub)))")
     # offsets
